@@ -172,6 +172,22 @@ def stepLib0 (st : St) (toks : List String) : Option (St × String) :=
   | ["create", lay, agg, xff] => do
     let lay ← parseLay lay; let agg ← agg.toNat?; let xff ← natOfHex xff
     return doOp st (.create lay agg (UInt32.ofNat xff))
+  -- ⟦Create⟧ with an open flag that allows an existing file (no O_EXCL, no O_TRUNC): the file
+  -- is cut or extended to the new size at once — what it held inside that size stays on the
+  -- disk — and the header goes to the buffer only
+  | ["createover", lay, agg, xff] => do
+    let lay ← parseLay lay; let agg ← agg.toNat?; let xff ← natOfHex xff
+    match st.w.disk with
+    | none => return doOp st (.create lay agg (UInt32.ofNat xff))
+    | some d =>
+      match newHeader o agg (UInt32.ofNat xff) lay with
+      | .error e => return (st, faultStr e)
+      | .ok h =>
+        let size := h.expectedFileSize
+        let disk' : Bytes := d.take size ++ List.replicate (size - d.length) 0
+        match writeAt disk' 0 (encHeader h) with
+        | .error e => return (st, faultStr e)
+        | .ok view => return ({ st with w := ⟨some disk', some ⟨h, view⟩⟩ }, "ok")
   | ["open"] => some (doOp st .open_)
   | ["setdisk", hex] => do
     let b ← bytesOfHex hex
@@ -242,7 +258,7 @@ def stepLib (st : St) (toks : List String) : Option (St × String) :=
     | some (st', out) =>
       match toks.head? with
       | some "reset" => some (st', out)
-      | some "resetfile" | some "use" | some "create" | some "open" | some "setdisk" | some "rmdisk" | some "drop" =>
+      | some "resetfile" | some "use" | some "create" | some "createover" | some "open" | some "setdisk" | some "rmdisk" | some "drop" =>
         some ({ st' with taintMode := st.taintMode, tainted := false }, out)
       | some "upd" | some "updmany" =>
         if st.taintMode && out != "ok" && out != "nohandle" && !out.startsWith "panic" then
